@@ -22,6 +22,8 @@ def cases(tier):
     for S in Q.subsets(Q.members(tier, "U1")):
         if len(S) <= 2 or len(S) == len(Q.members(tier, "U1")):
             out.append(("sql2", S, tier, "U1"))
+            # the LMDB backend of a busy process: the queue of the query-analysis thread is full
+            out.append(("kvbusy", S, tier, "U1"))
     return out
 
 
@@ -91,7 +93,7 @@ def run_case(case):
     backend, S, tier = case[:3]
     uname = case[3] if len(case) > 3 else "U1"
     uni = Q.UNIVERSES[uname]()
-    sess = seq.session("sql", second_worker=True) if backend == "sql2" else seq.session(backend)
+    sess = seq.session("sql", second_worker=True) if backend == "sql2" else (seq.session("kv", analysis_full=True) if backend == "kvbusy" else seq.session(backend))
     Q.build_store(sess, S, uni)
     store_events = [uni[nm] for nm in S]
     byid = {e["id"]: nm for nm, e in uni.items()}
@@ -137,7 +139,7 @@ def coverage(tier, agg):
         "stores_per_backend": {"U1": 2 ** len(Q.members(tier)), "U2": 2 ** len(Q.members(tier, "U2"))},
         "U2": "second universe of byte-order neighbours (tag values extending a requested value through NUL, two requested values on one event, "
               "equal timestamps) with its own filter language",
-        "backends": ["sql", "kv", "sql2 = events accepted by one SQL worker, REQs answered by a second worker on the same database file (stores of <= 2 members and the full store)"],
+        "backends": ["sql", "kv", "sql2 = events accepted by one SQL worker, REQs answered by a second worker on the same database file (stores of <= 2 members and the full store)", "kvbusy = LMDB with the real analyze() and an analysis queue that is always full (same stores)"],
     }
 
 
